@@ -101,7 +101,7 @@ func ruleC08CopyFields(c *Ctx) {
 	exec := c.P.Method(modPath, "Query", "exec")
 	usedByExec := map[*ssa.Function]bool{}
 	if exec != nil {
-		allInstrs(exec, func(_ *ssa.BasicBlock, in ssa.Instruction) {
+		deepInstrs(exec, func(_ *ssa.Function, _ *TB, _ *ssa.BasicBlock, in ssa.Instruction) {
 			if call, ok := in.(*ssa.Call); ok {
 				if cal := call.Common().StaticCallee(); cal != nil && sites[cal] != nil {
 					usedByExec[cal] = true
@@ -171,12 +171,13 @@ func ruleC08Recursion(c *Ctx) {
 	}
 	key := "(*Query).exec/[]any-arm"
 	c.Fn("(*Query).exec")
-	lp := findRangeLoopOverField(exec, "from")
-	if lp == nil {
+	scan := c.findExecScan(exec)
+	if scan == nil {
 		c.Unknown("c08.recursion-shape", key, c.P.Pos(exec.Pos()), "anchor lost: no loop over query.from in exec")
 		return
 	}
-	paths, err := WalkFrom(exec, lp.body, lp.header, WalkCfg{StopAt: func(b *ssa.BasicBlock) bool { return b == lp.header }, MaxVisits: 1})
+	lp := scan.lp
+	paths, err := WalkFrom(scan.fn, lp.body, lp.header, WalkCfg{StopAt: func(b *ssa.BasicBlock) bool { return b == lp.header }, MaxVisits: 1})
 	if err != nil {
 		c.Unknown("c08.recursion-shape", key, c.P.Pos(exec.Pos()), err.Error())
 		return
